@@ -13,10 +13,10 @@ use emulator_2a_lib::parser::{Asm, AsmParser, Constant, Destination, Instruction
 pub fn meta() -> Meta {
     Meta {
         id: "C02",
-        rule: "(a) every instruction form x operand shape x register (enumerated exhaustively, about 2 300 shapes incl. number and label operands) is placed after a seeded random prefix of directives (.ORG forward, .BYTE n, .DB, .DW, .EQU, label definitions) and followed by a random suffix, with forward/backward/mixed-case label references; (b) seeded random multi-line programs from the grammar generator (text -> real parser -> real translator). The translator's per-line byte groups, reported lines, *STACKSIZE/*PROGRAMSIZE and the concatenated image are compared with the reference encoder. distinct_nontrivial counts distinct (instruction shape, preceding-layout class) pairs whose bytes were compared",
+        rule: "(a) every instruction form x operand shape x register (enumerated exhaustively, about 2 300 shapes incl. number and label operands) is placed after a seeded random prefix of directives (.ORG forward, .BYTE n, .DB, .DW, .EQU, label definitions) and followed by a random suffix, with forward/backward/mixed-case label references; (b) seeded random multi-line programs from the grammar generator (text -> real parser -> real translator). The translator's per-line byte groups, reported lines, *STACKSIZE/*PROGRAMSIZE and the concatenated image are compared with the reference encoder; for (b) the image assembled from the text is also compared with the reference encoding of the program the generator wrote, so a line that the parser reads as another instruction shows as a wrong image. distinct_nontrivial counts distinct (instruction shape, preceding-layout class) pairs whose bytes were compared",
         exhaustive: false,
         assumptions: vec!["refmodel::asm is the documented encoding (instruction table + statement of C02)", "programs outside the quantifier (image > 240 bytes, backward .ORG) are not generated here; C06 owns them"],
-        floors: vec![("shapes_enumerated", 2_000), ("shape_programs_compared", 20_000), ("random_programs_compared", 5_000), ("label_refs_after_byte_or_org", 1_000), ("mixed_case_refs", 1_000), ("relative_jumps_backward", 30), ("relative_jumps_forward", 30)],
+        floors: vec![("texts_checked_against_written_program", 100_000), ("shapes_enumerated", 2_000), ("shape_programs_compared", 20_000), ("random_programs_compared", 5_000), ("label_refs_after_byte_or_org", 1_000), ("mixed_case_refs", 1_000), ("relative_jumps_backward", 30), ("relative_jumps_forward", 30)],
     }
 }
 
@@ -298,6 +298,19 @@ pub fn run(ctx: &Ctx) -> Report {
                 Some((sig, what)) => rep.violate(&sig, what, witness(&parsed, Some(&g.text))),
                 None => rep.inc("random_programs_compared"),
             }
+            // the image is a function of the source *text*: where the parser's reading differs from
+            // what the generator wrote, the reference encoding of the written program decides
+            rep.inc("texts_checked_against_written_program");
+            if parsed.lines.iter().filter(|l| **l != Line::Empty(None)).ne(g.asm.lines.iter().filter(|l| **l != Line::Empty(None))) {
+                if let (Ok(e), Ok(real)) = (encode(&g.asm), catch(|| Translator::compile(&parsed))) {
+                    let want: Vec<u8> = e.lines.iter().flatten().copied().collect();
+                    let got: Vec<u8> = real.bytes().copied().collect();
+                    if want != got || real.stacksize != e.stacksize || real.programsize != e.programsize {
+                        let at = want.iter().zip(got.iter()).position(|(a, b)| a != b).unwrap_or(want.len().min(got.len()));
+                        rep.violate("C02:image-of-text-differs", format!("the image assembled from the text differs from the reference encoding of the written program at byte {:#04x}: [{}] vs reference [{}]", at, hex(&got[at.min(got.len())..(at + 4).min(got.len())]), hex(&want[at.min(want.len())..(at + 4).min(want.len())])), obj![("text", g.text.clone())]);
+                    }
+                }
+            }
             if i == rounds && k == 0 {
                 rep.sample(obj![("kind", "random program"), ("text", g.text.clone())]);
             }
@@ -320,6 +333,16 @@ pub fn replay(_ctx: &Ctx, w: &J) -> Report {
         Ok(Ok(asm)) => {
             if let Some((sig, what)) = compare(&asm, &mut rep, 9, &Stats { after_byte_org: false, mixed_case: false }) {
                 rep.violate(&sig, what, witness(&asm, Some(&text)));
+            }
+            // the written program, as the reference grammar reads the text
+            if let crate::refmodel::grammar::Verdict::Accept(written) = crate::refmodel::grammar::recognise(&text) {
+                if let (Ok(e), Ok(real)) = (encode(&written), catch(|| Translator::compile(&asm))) {
+                    let want: Vec<u8> = e.lines.iter().flatten().copied().collect();
+                    let got: Vec<u8> = real.bytes().copied().collect();
+                    if want != got || real.stacksize != e.stacksize || real.programsize != e.programsize {
+                        rep.violate("C02:image-of-text-differs", "the image assembled from the text differs from the reference encoding of the written program".into(), obj![("text", text.clone())]);
+                    }
+                }
             }
         }
         Ok(Err(e)) => rep.inconclusive(format!("replay text does not parse: {}", e)),
